@@ -131,10 +131,11 @@ func StartServer(mod func(*v1.ServerConfig)) (*Server, error) {
 }
 
 func (s *Server) Stop() {
+	s.Svc.Close()
 	s.cancel()
 	select {
 	case <-s.done:
-	case <-time.After(3 * time.Second):
+	case <-time.After(20 * time.Millisecond):
 	}
 }
 
